@@ -10,6 +10,8 @@ a panic ends a run.  Theorems without further hypotheses hold for every such run
 caller or on the configuration this is an explicit hypothesis:
   `okRun Contract`  — `on_probe_lost` is called only while a probe is in flight (Connection::detect_lost_packets);
   `3 ≤ minimum_change` — see the counterexamples at the end for 0, 1 and 2 (default: 20).
+The model follows the code after `fix: black hole detection never raises the MTU estimate above the peer limit`
+and `fix: reset re-applies the peer limit when MTU discovery is disabled` (both findings of this check).
 -/
 namespace QM.Props.C13
 open QM QM.Mtud
@@ -47,9 +49,8 @@ theorem one_probe_in_flight (s0 : State) (h0 : Start s0) (ops : List Op) :
   rw [hg]; exact probe_only_when_idle _ now pn p h
 
 /-- `current_mtu` changes only by: the ack (in the Data space) of the in-flight probe — to exactly the size of
-    that probe; a peer limit — down to that limit; a detected black hole — to `min_mtu`; or `reset`.
-    In particular it RISES only by the first, the third (only if a peer limit below `min_mtu` had clamped it)
-    or `reset`.  No assumptions. -/
+    that probe; a peer limit — down to that limit; a detected black hole — down to `min_mtu`; or `reset`.
+    No assumptions. -/
 theorem mtu_changes_only_by (s0 : State) (ops : List Op) (op : Op)
     (hne : (step (exec s0 ops) op).1.currentMtu ≠ (exec s0 ops).currentMtu) :
     (∃ pn len e st, op = .acked true pn len ∧ (exec s0 ops).state = some e ∧ e.phase = .searching st
@@ -57,7 +58,8 @@ theorem mtu_changes_only_by (s0 : State) (ops : List Op) (op : Op)
         ∧ (step (exec s0 ops) op).1.currentMtu = st.lastProbedMtu ∧ (step (exec s0 ops) op).2 = .bool true)
     ∨ (∃ v, op = .peerMax v ∧ (step (exec s0 ops) op).1.currentMtu = v ∧ v < (exec s0 ops).currentMtu)
     ∨ (∃ now, op = .blackHole now ∧ (step (exec s0 ops) op).2 = .bool true
-        ∧ (step (exec s0 ops) op).1.currentMtu = (exec s0 ops).det.minMtu)
+        ∧ (step (exec s0 ops) op).1.currentMtu = (exec s0 ops).det.minMtu
+        ∧ (exec s0 ops).det.minMtu < (exec s0 ops).currentMtu)
     ∨ (∃ c m, op = .reset c m) := by
   rcases mtu_change (exec s0 ops) op hne with ⟨pn, len, e, st, h1, h2, h3, h4, h5, h6⟩ | h | h | h
   · left; exact ⟨pn, len, e, st, h1, h2, h3, h4, by simp [slot, h2, slotE, h3, h4], h5, h6⟩
@@ -65,24 +67,24 @@ theorem mtu_changes_only_by (s0 : State) (ops : List Op) (op : Op)
   · right; right; left; exact h
   · right; right; right; exact h
 
-/-- `current_mtu` rises only after a probe of exactly that size was acknowledged (or `reset` / black-hole fallback
-    to `min_mtu`); with `minimum_change ≥ 3` and the contract such an ack always raises it -/
+/-- `current_mtu` rises only after a probe of exactly that size was acknowledged (or by `reset`, which restores the
+    configured initial MTU clamped by the peer limit) — no assumptions; and with `minimum_change ≥ 3` and the
+    contract the ack of the in-flight probe always raises it -/
 theorem mtu_rises_only_on_probe_ack (s0 : State) (h0 : Start s0)
     (h3 : ∀ cfg, configOf s0 = some cfg → 3 ≤ cfg.minimumChange) (ops : List Op) (hc : okRun Contract s0 ops) (op : Op) :
     ((exec s0 ops).currentMtu < (step (exec s0 ops) op).1.currentMtu →
         (∃ pn len p, op = .acked true pn len ∧ slot (exec s0 ops) = some (pn, p) ∧ (step (exec s0 ops) op).1.currentMtu = p)
-        ∨ (∃ now, op = .blackHole now ∧ (step (exec s0 ops) op).1.currentMtu = (exec s0 ops).det.minMtu)
         ∨ (∃ c m, op = .reset c m))
     ∧ (∀ pn len p, op = .acked true pn len → slot (exec s0 ops) = some (pn, p) →
         (step (exec s0 ops) op).2 = .bool true ∧ (step (exec s0 ops) op).1.currentMtu = p ∧ (exec s0 ops).currentMtu < p) := by
   have hi := exec_sinv s0 (start_sinv s0 h0 h3) ops hc
   generalize exec s0 ops = s at hi ⊢
   refine ⟨fun hlt => ?_, fun pn len p hop hslot => ?_⟩
-  · rcases mtu_change s op (by omega) with ⟨pn, len, e, st, h1, h2, h3', h4, h5, _⟩ | ⟨v, _, h2, h3'⟩ | ⟨now, h1, _, h3'⟩ | h
+  · rcases mtu_change s op (by omega) with ⟨pn, len, e, st, h1, h2, h3', h4, h5, _⟩ | ⟨v, _, h2, h3'⟩ | ⟨now, _, _, h3', h4⟩ | h
     · left; exact ⟨pn, len, st.lastProbedMtu, h1, by simp [slot, h2, slotE, h3', h4], h5⟩
     · omega
-    · right; left; exact ⟨now, h1, h3'⟩
-    · right; right; exact h
+    · omega
+    · right; exact h
   · subst hop
     cases hst : s.state with
     | none => simp [slot, hst] at hslot
@@ -110,27 +112,48 @@ theorem mtu_falls_only_by (s0 : State) (h0 : Start s0)
         ∧ (step (exec s0 ops) op).1.currentMtu = (exec s0 ops).det.minMtu)
     ∨ (∃ c m, op = .reset c m) := by
   have hi := exec_sinv s0 (start_sinv s0 h0 h3) ops hc
-  rcases mtu_change (exec s0 ops) op (by omega) with ⟨pn, len, e, st, _, h2, h3', h4, h5, _⟩ | ⟨v, h1, h2, _⟩ | h | h
+  rcases mtu_change (exec s0 ops) op (by omega) with ⟨pn, len, e, st, _, h2, h3', h4, h5, _⟩ | ⟨v, h1, h2, _⟩ | ⟨now, h1, h2, h3', _⟩ | h
   · have := acked_raises _ hi e st pn h2 h3' h4; omega
   · left; exact ⟨v, h1, h2⟩
-  · right; left; exact h
+  · right; left; exact ⟨now, h1, h2, h3'⟩
   · right; right; exact h
 
-/-- floor: `current_mtu ≥ min(min_mtu, peer max_udp_payload_size)` in every reachable state, provided
-    `minimum_change ≥ 3`, the contract, `reset(c, m)` is called with `m ≤ c` (as `PathData::reset` does) and a
-    later peer limit is not above an earlier one -/
-theorem mtu_floor (s0 : State) (h0 : Start s0) (h3 : ∀ cfg, configOf s0 = some cfg → 3 ≤ cfg.minimumChange)
-    (ops : List Op) (hc : okRun (fun s op => Contract s op ∧ FloorContract s op) s0 ops) :
-    ∀ e, (exec s0 ops).state = some e → Nat.min (exec s0 ops).det.minMtu e.peerMax ≤ (exec s0 ops).currentMtu :=
-  exec_floor s0 (start_sinv s0 h0 h3) (start_floor s0 h0) ops hc
+/-- floor, in the property's form: the estimate never FALLS below the smaller of the configured minimum and the
+    peer's max_udp_payload_size — whenever a call lowers `current_mtu`, the new value is at least
+    `min(min_mtu, peer limit)` of the resulting state.  Needs `minimum_change ≥ 3`, the contract, and `reset(c, m)`
+    called with `m ≤ c` (what `PathData::reset` passes). -/
+theorem mtu_never_falls_below_floor (s0 : State) (h0 : Start s0)
+    (h3 : ∀ cfg, configOf s0 = some cfg → 3 ≤ cfg.minimumChange) (ops : List Op) (hc : okRun Contract s0 ops) (op : Op)
+    (hr : ResetContract (exec s0 ops) op)
+    (hlt : (step (exec s0 ops) op).1.currentMtu < (exec s0 ops).currentMtu) :
+    Nat.min (step (exec s0 ops) op).1.det.minMtu (step (exec s0 ops) op).1.peerMax ≤ (step (exec s0 ops) op).1.currentMtu :=
+  fall_not_below_floor _ op (exec_sinv s0 (start_sinv s0 h0 h3) ops hc) hr hlt
 
-/-- ceiling: with discovery enabled (and an initial MTU within `MAX_UDP_PAYLOAD`) `current_mtu` never exceeds the
-    peer's max_udp_payload_size — except as the `min_mtu` a black hole fell back to (see
-    `black_hole_exceeds_peer_limit`).  No further assumptions. -/
-theorem mtu_ceiling (s0 : State) (h0 : Start s0) (hi : s0.currentMtu ≤ Gen.maxUdpPayload) (ops : List Op) :
-    ∀ e, (exec s0 ops).state = some e →
-      (exec s0 ops).currentMtu ≤ e.peerMax ∨ (exec s0 ops).currentMtu ≤ (exec s0 ops).det.minMtu :=
+/-- floor as a state invariant: `current_mtu ≥ min(min_mtu, peer max_udp_payload_size)` in every reachable state,
+    enabled or disabled, under the same assumptions and if a later peer limit is never larger than an earlier one
+    (with a larger second limit the floor itself would rise above an estimate the first limit had clamped) -/
+theorem mtu_floor (s0 : State) (h0 : StartOk s0) (h3 : ∀ cfg, configOf s0 = some cfg → 3 ≤ cfg.minimumChange)
+    (ops : List Op) (hc : okRun FloorRun s0 ops) :
+    Nat.min (exec s0 ops).det.minMtu (exec s0 ops).peerMax ≤ (exec s0 ops).currentMtu :=
+  exec_floor s0 (start_sinv s0 h0.start h3) (start_floor s0 h0) ops hc
+
+/-- ceiling, unconditional: `current_mtu` never exceeds the peer's max_udp_payload_size (as last received;
+    `MAX_UDP_PAYLOAD` = 65527 before that) — for ANY calls, with discovery enabled or disabled, including black-hole
+    fallback and `reset` … -/
+theorem mtu_le_peer_max (s0 : State) (h0 : Start s0) (hi : s0.currentMtu ≤ Gen.maxUdpPayload) (ops : List Op) :
+    (exec s0 ops).currentMtu ≤ (exec s0 ops).peerMax :=
   exec_ceil s0 (start_ginv s0 h0) (start_ceil s0 h0 hi) ops
+
+/-- … and even for an (impossible) initial MTU above 65527 from the moment the peer's limit has been received -/
+theorem mtu_le_peer_max_once_received (s0 : State) (h0 : Start s0) (ops1 : List Op) (v : Nat)
+    (hp : (step (exec s0 ops1) (.peerMax v)).2 ≠ .panic) (ops2 : List Op) :
+    (exec (step (exec s0 ops1) (.peerMax v)).1 ops2).currentMtu ≤ (exec (step (exec s0 ops1) (.peerMax v)).1 ops2).peerMax :=
+  exec_ceil _ (step_ginv _ _ (exec_ginv s0 (start_ginv s0 h0) ops1) hp) (peerMax_ceil _ v) ops2
+
+/-- the remembered limit is exactly what was received last (or the default) -/
+theorem peer_max_is_last_received (s : State) (v : Nat) : (step s (.peerMax v)).1.peerMax = v := by
+  simp only [step]
+  rcases peerMax_cases s v with ⟨_, h⟩ | ⟨_, _, _, _, h⟩ | ⟨_, _, _, h⟩ <;> rw [h]
 
 /-- the binary search terminates: within one search (`searchOf` before and after the call) no call increases
     `measure`, every probe result (ack of the in-flight probe, loss of it) strictly decreases it, and a poll with
@@ -148,13 +171,15 @@ theorem search_terminates (s0 : State) (h0 : Start s0) (h3 : ∀ cfg, configOf s
   exact ⟨fun op st st' hco hp h h' => measure_step _ op hi hco hp st st' h h',
     fun now pn st h hfl => poll_progress _ hi now pn st h hfl⟩
 
-/-- a detected black hole resets `current_mtu` to `min_mtu`, clears the burst table and suspends the search until
-    `now + black_hole_cooldown`; it is detected exactly when, after closing the current loss burst, more than
-    `BLACK_HOLE_THRESHOLD` bursts are suspicious.  No assumptions. -/
+/-- a detected black hole lowers `current_mtu` to `min_mtu` (never raises it: `min(current_mtu, min_mtu)`), keeps the
+    peer limit, clears the burst table and suspends the search until `now + black_hole_cooldown`; it is detected
+    exactly when, after closing the current loss burst, more than `BLACK_HOLE_THRESHOLD` bursts are suspicious.
+    No assumptions. -/
 theorem black_hole_resets_to_min (s : State) (now : Nat) :
     ((step s (.blackHole now)).2 = .bool true ↔ Gen.mtudBlackHoleThreshold < s.det.finishLossBurst.bursts.length)
     ∧ ((step s (.blackHole now)).2 = .bool true →
-        (step s (.blackHole now)).1.currentMtu = s.det.minMtu
+        (step s (.blackHole now)).1.currentMtu = Nat.min s.currentMtu s.det.minMtu
+        ∧ (step s (.blackHole now)).1.peerMax = s.peerMax
         ∧ (step s (.blackHole now)).1.det.minMtu = s.det.minMtu
         ∧ (step s (.blackHole now)).1.det.bursts = []
         ∧ (step s (.blackHole now)).1.det.current = none
@@ -162,13 +187,21 @@ theorem black_hole_resets_to_min (s : State) (now : Nat) :
             (step s (.blackHole now)).1.state = some { e with phase := .complete (now + e.config.blackHoleCooldown) })
         ∧ (s.state = none → (step s (.blackHole now)).1.state = none)) := by
   refine ⟨black_hole_iff s now, fun h => ?_⟩
-  obtain ⟨h1, h2, h3, h4, h5, h6, _⟩ := black_hole_effects s now h
-  exact ⟨h1, h2, h3, h4, h5, h6⟩
+  obtain ⟨h1, h2, h3, h4, h5, h6, h7, _⟩ := black_hole_effects s now h
+  exact ⟨h1, h2, h3, h4, h5, h6, h7⟩
+
+/-- in every state that satisfies floor and ceiling (all reachable states under `mtu_floor` / `mtu_le_peer_max`) that
+    fallback value is exactly the smaller of `min_mtu` and the peer's max_udp_payload_size -/
+theorem black_hole_falls_to_min_of_limits (s : State) (hc : s.currentMtu ≤ s.peerMax)
+    (hf : Nat.min s.det.minMtu s.peerMax ≤ s.currentMtu) :
+    Nat.min s.currentMtu s.det.minMtu = Nat.min s.det.minMtu s.peerMax := by
+  simp only [Nat.min_def] at hf ⊢
+  split at hf <;> split <;> (try split) <;> omega
 
 /-- the detector never stores more than `BLACK_HOLE_THRESHOLD + 1` suspicious bursts.  No assumptions. -/
 theorem burst_table_bounded (s0 : State) (h0 : Start s0) (ops : List Op) :
     (exec s0 ops).det.bursts.length ≤ Gen.mtudBlackHoleThreshold + 1 :=
-  (exec_ginv s0 (start_ginv s0 h0) ops).2
+  (exec_ginv s0 (start_ginv s0 h0) ops).2.1
 
 /-- widths: with `u16` peer limits, every bound and probe size of a running search is below 2^16, so none of the
     `as u16` casts in `next_mtu_to_probe` truncates (the model computes in ℕ) -/
@@ -192,7 +225,10 @@ theorem panics_exactly (s : State) :
     ∧ (∀ i m p cfg, Mtud.new i m p cfg = none ↔ i < m) :=
   ⟨peerMax_panics_iff s, nonProbeLost_panics_iff s, new_panics_iff⟩
 
-/-! ### what is FALSE of the code (proved on the model; each is replayed on the real code by the harness) -/
+/-! ### what is FALSE of the code (proved on the model; each is replayed on the real code by the harness).
+The two former findings (reset with discovery disabled forgot the peer limit; a black hole set `current_mtu = min_mtu`
+above the peer limit) are fixed in quinn; their counterexamples are gone, `mtu_le_peer_max` is proved instead and their
+witnesses are regression examples at the end (and corpus/mtud/fixed-*.ops for the real code). -/
 
 /-- a run from `new(initial, min, peer, config(interval, upper_bound, minimum_change, cooldown))` -/
 def runNew (i m : Nat) (p : Option Nat) (cfg : Config) (ops : List Op) : Option State :=
@@ -202,30 +238,9 @@ def runNew (i m : Nat) (p : Option Nat) (cfg : Config) (ops : List Op) : Option 
 def probesNew (i m : Nat) (p : Option Nat) (cfg : Config) (ops : List Op) : Option (List Nat) :=
   (Mtud.new i m p cfg).map (fun s => (trace s ops).filterMap (fun e => match e.2 with | .probe (some p) => some p | _ => none))
 
-/-- the peer limit is never exceeded by `current_mtu` — as one would state it -/
-def mtu_le_peer_limit_statement : Prop :=
-  ∀ (s0 : State) (v : Nat) (ops : List Op), Start s0 →
-    (exec (step s0 (.peerMax v)).1 ops).currentMtu ≤ v
-
-/-- FINDING: with discovery disabled, `reset` (Connection::path_changed) restores the configured initial MTU and
-    forgets the peer's max_udp_payload_size: disabled(1400, 1200); peer 1300; reset(1400, 1200) ⇒ 1400 > 1300 -/
-theorem reset_disabled_forgets_peer_limit :
-    (exec (disabled 1400 1200) [.peerMax 1300]).currentMtu = 1300
-    ∧ (exec (disabled 1400 1200) [.peerMax 1300, .reset 1400 1200]).currentMtu = 1400 := by decide
-
-theorem mtu_le_peer_limit_counterexample : ¬ mtu_le_peer_limit_statement := by
-  intro h
-  have := h (disabled 1400 1200) 1300 [.reset 1400 1200] (Or.inr ⟨1400, 1200, rfl⟩)
-  revert this; decide
-
-/-- FINDING: a black hole sets `current_mtu = min_mtu` regardless of the peer limit: new(1400, 1300, peer 1250):
-    four separate loss bursts of 1350-byte packets ⇒ current_mtu = 1300 > 1250 -/
+/-- four separate loss bursts of 1350-byte packets, then the detector is asked -/
 def blackHoleOps : List Op :=
   [.nonProbeLost 0 1350, .nonProbeLost 2 1350, .nonProbeLost 4 1350, .nonProbeLost 6 1350, .blackHole 0]
-
-theorem black_hole_exceeds_peer_limit :
-    (runNew 1400 1300 (some 1250) Config.default []).map (·.currentMtu) = some 1250
-    ∧ (runNew 1400 1300 (some 1250) Config.default blackHoleOps).map (·.currentMtu) = some 1300 := by decide
 
 /-- three losses of the probe in flight, each followed by the next poll -/
 def lose3 (pn : Nat) : List Op :=
@@ -279,5 +294,10 @@ example : ∃ s0, Mtud.new 1200 1200 none Config.default = some s0 ∧ Start s0 
 example : probesNew 1200 1200 none Config.default demo = some [1326, 1389, 1389, 1389, 1357, 1388, 1388] := by decide
 example : (runNew 1200 1200 none Config.default demo).map (·.currentMtu) = some 1357 := by decide
 example : (runNew 1400 1250 none Config.default blackHoleOps).map (fun s => (s.currentMtu, s.det.bursts)) = some (1250, []) := by decide
+
+-- regressions of the two fixed findings: the peer limit survives `reset` with discovery disabled and black holes
+example : (exec (disabled 1400 1200) [.peerMax 1300, .reset 1400 1200]).currentMtu = 1300 := by decide
+example : (runNew 1400 1300 (some 1250) Config.default blackHoleOps).map (fun s => (s.currentMtu, s.peerMax)) = some (1250, 1250) := by decide
+example : (exec (disabled 1400 1300) ([.peerMax 1250] ++ blackHoleOps)).currentMtu = 1250 := by decide
 
 end QM.Props.C13
